@@ -3,6 +3,7 @@ package harness
 import (
 	"bytes"
 	"context"
+	"errors"
 	"fmt"
 	"io"
 	"sort"
@@ -44,6 +45,8 @@ type fsModelFile struct {
 	bytes   []byte
 	valid   bool // payload is a valid bloom file
 	busy    bool // an operation on it is in flight
+	owner   int  // writer whose CreateFile returned it
+	open    bool // its write cycle (CreateFile .. last Close/Abort of the script) is not over yet
 }
 
 type fsSpecState struct {
@@ -58,6 +61,25 @@ type fsSpecState struct {
 	tombing  map[string]int // TombstoneFile calls in flight per pointer
 	inflight map[string]int // operations in flight per pointer (any kind, any writer)
 	racy     map[string]bool // two operations on the pointer overlapped at some time
+	// drawing: names an in-flight CreateFile has drawn (its reservation may exist) but whose
+	// pointer has not been returned yet, per pointer.
+	drawing map[string]int
+	// stolen: a TombstoneFile on the pointer overlapped an in-flight CreateFile that had drawn
+	// the same name: the tombstone may have removed that CreateFile's live reservation, after
+	// which two write cycles can share the name (known finding F14). Violations on such a
+	// pointer are reported under their own kind.
+	stolen  map[string]bool
+	drawnBy map[int][]string
+	tombSeq map[string]int // TombstoneFile calls started so far, per pointer
+	orphan  map[string]bool // a failed CreateFile drew this name while faults were being injected
+}
+
+// kindFor qualifies a violation kind for pointers hit by the F14 history.
+func (st *fsSpecState) kindFor(ptr, kind string) string {
+	if st.stolen[ptr] {
+		return kind + "-after-tombstone-raced-create"
+	}
+	return kind
 }
 
 // enter notes the start of an operation on ptr (st.mu held).
@@ -144,6 +166,17 @@ func (st *fsSpecState) writer(wi int, scripts []fsScript, names *[]int) {
 		wr, ptrB, err := st.store.CreateFile(ctx)
 		st.mu.Lock()
 		st.creating--
+		for _, d := range st.drawnBy[wi] {
+			st.drawing[d]--
+		}
+		if err != nil && r.faultsFired() {
+			// A CreateFile that failed on an injected fault may have been unable to release
+			// its 0-byte reservation as well; that orphan is invisible to scans and legitimate.
+			for _, d := range st.drawnBy[wi] {
+				st.orphan[d] = true
+			}
+		}
+		st.drawnBy[wi] = nil
 		st.mu.Unlock()
 		if err != nil {
 			r.Logf("w%d CreateFile -> %v", wi, err)
@@ -154,12 +187,12 @@ func (st *fsSpecState) writer(wi int, scripts []fsScript, names *[]int) {
 		// freed by Abort or TombstoneFile may legitimately be handed out again.
 		st.mu.Lock()
 		old := st.model[ptr]
-		mf := &fsModelFile{state: "reserved"}
+		mf := &fsModelFile{state: "reserved", owner: wi, open: true}
 		st.model[ptr] = mf
 		tombRacing := st.tombing[ptr] > 0
 		st.mu.Unlock()
 		if old != nil && !old.busy && !tombRacing && !st.racy[ptr] && (old.state == "reserved" || old.state == "closed") {
-			r.Violate("C16", "create-returned-live-pointer", "CreateFile returned %s, which is already %s (owned by an earlier CreateFile that was neither aborted nor tombstoned)", ptr, old.state)
+			r.Violate("C16", st.kindFor(ptr, "create-returned-live-pointer"), "CreateFile returned %s, which is already %s (owned by an earlier CreateFile that was neither aborted nor tombstoned)", ptr, old.state)
 		}
 		r.Logf("w%d CreateFile -> %s", wi, ptr)
 		total := 0
@@ -235,7 +268,7 @@ func (st *fsSpecState) writer(wi int, scripts []fsScript, names *[]int) {
 		case sc.End == 2:
 			if doClose() == nil {
 				if aerr := doAbort(); aerr != nil {
-					r.Violate("C16", "abort-after-close-failed", "Abort after a successful Close of %s returned %v", ptr, aerr)
+					r.Violate("C16", st.kindFor(ptr, "abort-after-close-failed"), "Abort after a successful Close of %s returned %v", ptr, aerr)
 				}
 			}
 		case sc.End == 3:
@@ -257,28 +290,35 @@ func (st *fsSpecState) writer(wi int, scripts []fsScript, names *[]int) {
 			doClose()
 			doAbort()
 		}
+		st.mu.Lock()
+		mf.open = false
+		st.mu.Unlock()
 		if sc.ReadBack {
 			simrt.Gate("op", fmt.Sprintf("w%d open %d", wi, si), nil)
 			st.mu.Lock()
 			cur := st.model[ptr]
 			state, want := cur.state, cur.bytes
+			// A TombstoneFile on this pointer (by any writer) that is in flight at any time
+			// during the read-back makes its outcome indeterminate.
+			tombBefore := st.tombing[ptr] > 0
+			tombSeq := st.tombSeq[ptr]
 			st.mu.Unlock()
 			h, err := st.store.OpenFile(ctx, ptrB)
 			if err == nil {
 				got, rerr := io.ReadAll(h)
 				h.Close()
 				st.mu.Lock()
-				still := st.model[ptr] == cur && cur.state == "closed" && !cur.busy && !st.racy[ptr]
+				still := st.model[ptr] == cur && cur.state == "closed" && !cur.busy && !st.racy[ptr] && !tombBefore && st.tombSeq[ptr] == tombSeq
 				st.mu.Unlock()
 				if rerr == nil && state == "closed" && still && !bytes.Equal(got, want) {
-					r.Violate("C16", "read-back-differs", "OpenFile(%s) returned %d bytes that differ from the %d bytes written", ptr, len(got), len(want))
+					r.Violate("C16", st.kindFor(ptr, "read-back-differs"), "OpenFile(%s) returned %d bytes that differ from the %d bytes written", ptr, len(got), len(want))
 				}
 			} else if state == "closed" {
 				st.mu.Lock()
-				still := st.model[ptr] == cur && cur.state == "closed" && !cur.busy && !st.racy[ptr]
+				still := st.model[ptr] == cur && cur.state == "closed" && !cur.busy && !st.racy[ptr] && !tombBefore && st.tombSeq[ptr] == tombSeq
 				st.mu.Unlock()
 				if still && !r.faultsFired() {
-					r.Violate("C16", "closed-file-not-openable", "OpenFile(%s) failed with %v although its Close succeeded and it was not tombstoned", ptr, err)
+					r.Violate("C16", st.kindFor(ptr, "closed-file-not-openable"), "OpenFile(%s) failed with %v although its Close succeeded and it was not tombstoned", ptr, err)
 				}
 			}
 		}
@@ -291,6 +331,13 @@ func (st *fsSpecState) writer(wi int, scripts []fsScript, names *[]int) {
 			st.mu.Lock()
 			target := st.model[ptr]
 			st.tombing[ptr]++
+			st.tombSeq[ptr]++
+			if st.drawing[ptr] > 0 || (target.open && target.owner != wi) {
+				// The name is held by a write cycle that is not over: an in-flight CreateFile
+				// that drew it, or another writer's file still being written.
+				st.stolen[ptr] = true
+				r.Probe("fs.tombstone-raced-create")
+			}
 			st.enter(ptr)
 			st.mu.Unlock()
 			err := st.store.TombstoneFile(ctx, ptrB)
@@ -346,36 +393,36 @@ func (st *fsSpecState) checkSpec(final bool) {
 		switch mf.state {
 		case "closed":
 			if !present {
-				r.Violate("C16", "closed-file-missing", "%s was closed successfully and not tombstoned, but the directory has no such entry", ptr)
+				r.Violate("C16", st.kindFor(ptr, "closed-file-missing"), "%s was closed successfully and not tombstoned, but the directory has no such entry", ptr)
 				continue
 			}
 			got, _ := fs.ReadFile(ptr)
 			if !bytes.Equal(got, mf.bytes) {
-				r.Violate("C16", "closed-file-bytes-changed", "%s holds %d bytes that differ from the %d bytes written before its Close", ptr, len(got), len(mf.bytes))
+				r.Violate("C16", st.kindFor(ptr, "closed-file-bytes-changed"), "%s holds %d bytes that differ from the %d bytes written before its Close", ptr, len(got), len(mf.bytes))
 			}
 		case "aborted":
 			if st.creating > 0 {
 				continue // the name may be in the middle of being handed out again
 			}
 			if present && size > 0 {
-				r.Violate("C16", "aborted-file-published", "%s was aborted but the directory holds a %d-byte entry for it", ptr, size)
+				r.Violate("C16", st.kindFor(ptr, "aborted-file-published"), "%s was aborted but the directory holds a %d-byte entry for it", ptr, size)
 			}
 			if _, ok := listing[tmp]; ok {
-				r.Violate("C16", "aborted-temp-left", "%s was aborted but its temporary file %s is still there", ptr, tmp)
+				r.Violate("C16", st.kindFor(ptr, "aborted-temp-left"), "%s was aborted but its temporary file %s is still there", ptr, tmp)
 			}
 		case "tombstoned":
 			if st.creating > 0 {
 				continue
 			}
-			if present {
-				r.Violate("C16", "tombstoned-file-present", "%s was tombstoned but the directory still has a %d-byte entry for it", ptr, size)
+			if present && !(size == 0 && st.orphan[ptr]) {
+				r.Violate("C16", st.kindFor(ptr, "tombstoned-file-present"), "%s was tombstoned but the directory still has a %d-byte entry for it", ptr, size)
 			}
 			if _, ok := listing[tmp]; ok {
-				r.Violate("C16", "tombstoned-temp-left", "%s was tombstoned but its temporary file %s is still there", ptr, tmp)
+				r.Violate("C16", st.kindFor(ptr, "tombstoned-temp-left"), "%s was tombstoned but its temporary file %s is still there", ptr, tmp)
 			}
 		case "reserved":
 			if present && size > 0 {
-				r.Violate("C16", "unclosed-file-published", "%s was never closed but the directory holds a %d-byte entry for it", ptr, size)
+				r.Violate("C16", st.kindFor(ptr, "unclosed-file-published"), "%s was never closed but the directory holds a %d-byte entry for it", ptr, size)
 			}
 		}
 	}
@@ -390,14 +437,14 @@ func (st *fsSpecState) checkSpec(final bool) {
 		}
 		if mf == nil {
 			if !anyBusy {
-				r.Violate("C16", "unknown-file-in-directory", "the directory holds %s (%d bytes), which no CreateFile returned", name, size)
+				r.Violate("C16", st.kindFor(fsRoot+"/"+name, "unknown-file-in-directory"), "the directory holds %s (%d bytes), which no CreateFile returned", name, size)
 			}
 			continue
 		}
 		if mf.busy || mf.state == "tainted" || mf.state == "closed" {
 			continue
 		}
-		r.Violate("C16", "non-closed-file-visible", "the directory holds %d bytes at %s, whose state is %s", size, name, mf.state)
+		r.Violate("C16", st.kindFor(fsRoot+"/"+name, "non-closed-file-visible"), "the directory holds %d bytes at %s, whose state is %s", size, name, mf.state)
 	}
 	if anyBusy && !final {
 		return
@@ -419,12 +466,12 @@ func (st *fsSpecState) checkSpec(final bool) {
 			continue
 		}
 		if mf.state != "closed" || !mf.valid {
-			r.Violate("C16", "scan-lists-wrong-file", "the directory scan lists %s, whose state is %s (valid bloom payload: %v)", m.Ptr, mf.state, mf.valid)
+			r.Violate("C16", st.kindFor(m.Ptr, "scan-lists-wrong-file"), "the directory scan lists %s, whose state is %s (valid bloom payload: %v)", m.Ptr, mf.state, mf.valid)
 		}
 	}
 	for ptr, mf := range st.model {
 		if !mf.busy && !st.racy[ptr] && mf.state == "closed" && mf.valid && !listed[ptr] {
-			r.Violate("C16", "scan-misses-file", "the directory scan does not list %s, which was closed successfully with a valid bloom payload and not tombstoned", ptr)
+			r.Violate("C16", st.kindFor(ptr, "scan-misses-file"), "the directory scan does not list %s, which was closed successfully with a valid bloom payload and not tombstoned", ptr)
 		}
 	}
 }
@@ -432,7 +479,8 @@ func (st *fsSpecState) checkSpec(final bool) {
 func runFsSpec(r *Run) {
 	wl := genFsSpecWorkload(r.W)
 	r.Samples = append(r.Samples, wl)
-	st := &fsSpecState{r: r, model: map[string]*fsModelFile{}, tombing: map[string]int{}, inflight: map[string]int{}, racy: map[string]bool{}}
+	st := &fsSpecState{r: r, model: map[string]*fsModelFile{}, tombing: map[string]int{}, inflight: map[string]int{}, racy: map[string]bool{},
+		drawing: map[string]int{}, stolen: map[string]bool{}, drawnBy: map[int][]string{}, tombSeq: map[string]int{}, orphan: map[string]bool{}}
 	simrt.SetMode(simrt.ModeOff)
 	st.valid = buildValidFiles(r, 2)
 	st.store = bs.NewFileSystemDataStore(fsRoot)
@@ -448,6 +496,12 @@ func runFsSpec(r *Run) {
 			if me == fmt.Sprintf("fswriter%d", wi) && len(pending[wi]) > 0 {
 				n := pending[wi][0]
 				pending[wi] = pending[wi][1:]
+				ptr := fsRoot + "/" + pool[n] + ".dat"
+				st.drawing[ptr]++
+				st.drawnBy[wi] = append(st.drawnBy[wi], ptr)
+				if st.tombing[ptr] > 0 {
+					st.stolen[ptr] = true
+				}
 				return pool[n]
 			}
 		}
@@ -506,7 +560,10 @@ type fsCrashState struct {
 	lastVer  uint64
 	images   int
 	merging  bool
-	K        int
+	// cleanupFailed: the last Merge reported ErrPostCommitCleanup (its source removals may not
+	// be durable and the caller was told so); cleared once every directory change is durable.
+	cleanupFailed bool
+	K             int
 	fin      bool
 }
 
@@ -584,7 +641,7 @@ func (st *fsCrashState) checkImage(kind, desc string, img *simos.FS) {
 			// window: the output is published before the sources are (durably) removed. That is
 			// known finding F7; anything else is reported under its own kind.
 			k := "duplicate-rows-merge-window-" + kind
-			if !st.merging {
+			if !st.merging && !(st.cleanupFailed && kind == "power-loss") {
 				k = "duplicate-rows-" + kind
 				if resurrected {
 					k = "duplicate-rows-removed-file-resurrected-" + kind
@@ -628,6 +685,9 @@ func (st *fsCrashState) crashPoint() {
 	st.lastVer = ver
 	st.checkImage("process-crash", "volatile view", fs.VolatileImage())
 	ops, dirty := fs.PendingDirOps()
+	if ops == 0 {
+		st.cleanupFailed = false
+	}
 	if ops == 0 && dirty == 0 {
 		return // everything is durable: the power-loss image equals the volatile one
 	}
@@ -722,6 +782,12 @@ func runFsCrash(r *Run) {
 				st.merging = false
 				if err == nil {
 					r.Probe("fs.merge-ok")
+				}
+				if errors.Is(err, bs.ErrPostCommitCleanup) {
+					// The commit window of F7 stays open: the engine reported that the
+					// removal of the merged sources could not be completed.
+					st.cleanupFailed = true
+					r.Probe("fs.merge-post-commit-cleanup-failed")
 				}
 			}
 		}
